@@ -28,6 +28,10 @@ def find_fn(items, name, impl=None):
     raise Untranslatable('function %s%s not found' % ((impl + '::') if impl else '', name))
 
 
+def param_names(f):
+    return [p['name'] for p in f['params'] if 'name' in p]
+
+
 def consts_of(items):
     out = {}
     for it in items:
@@ -535,10 +539,11 @@ class RegionTr:
     a Gallina boolean (true = the end of the region was reached).  env: rust name -> ('N'|'bool', term) |
     ('opt', term) | ('some', inner term) | ('ranges', term) | ('opaque',)"""
 
-    def __init__(self, env, consts):
+    def __init__(self, env, consts, whole=False):
         self.env = dict(env)
         self.consts = consts
         self.fresh = 0
+        self.whole = whole      # the statements are a whole function body: `return Ok(..)` accepts
 
     def name(self, base):
         self.fresh += 1
@@ -890,6 +895,8 @@ class RegionTr:
                 x = e['x']
                 if x and x.get('e') == 'call' and x['f'].get('segs') == ['Err']:
                     return 'false'
+                if self.whole and x and x.get('e') == 'call' and x['f'].get('segs') == ['Ok']:
+                    return 'true'
                 raise Untranslatable('return of something other than Err')
             if kind == 'try' and e['x'].get('e') == 'call' and e['x']['f'].get('segs') == ['Err']:
                 return 'false'
@@ -1011,7 +1018,7 @@ def generate(xl_by_file):
 
     def regular_def():
         f = find_fn(mod['items'], 'is_int_size_regular_type')
-        tr = Tr({'size': 'size'}, consts_of(mod['items']), {}, {})
+        tr = Tr({param_names(f)[0]: 'size'}, consts_of(mod['items']), {}, {})
         return 'Definition src_is_regular (size : N) : bool := %s.\n' % tr.block(f['body'])
 
     def b_regular():
@@ -1023,7 +1030,7 @@ def generate(xl_by_file):
 
     def b_new():
         f = find_fn(mod['items'], 'new', 'BaseDataSize')
-        tr = Tr({'size': 'size'}, consts_of(mod['items']), {}, {})
+        tr = Tr({param_names(f)[0]: 'size'}, consts_of(mod['items']), {}, {})
         d = 'Definition src_base_data_size (size : N) : option (N * N) := %s.\n' % tr.block(f['body'])
         return n_unit(d, 'src_base_data_size', 'option (N * N)', '(beq_opt beq_pair)', '(beq_opt_ok beq_pair beq_pair_ok)',
                       'Some (storage n, n)', ['src_base_data_size', 'storage'], dom='n <=? 128'), d
@@ -1066,7 +1073,7 @@ def generate(xl_by_file):
 
     def b_matches():
         f = find_fn(be['items'], 'matches', 'Exhaustive')
-        tr = Tr({'expected': 'expected'}, {}, {}, {'kind': 'kind'})
+        tr = Tr({param_names(f)[0]: 'expected'}, {}, {}, {'kind': 'kind'})
         body = tr.block(f['body'])
         g = find_fn(be['items'], 'is_conditional', 'Exhaustive')
         tr2 = Tr({}, {}, {}, {'kind': 'kind'})
@@ -1100,7 +1107,7 @@ def generate(xl_by_file):
         f = find_fn(be['items'], 'check_explicit_conditional')
         env = {'config.exhaustive': ('kind', 'kind'), 'input.variants': ('count', 'count'), 'input.variants.any': ('bool', 'any_cfg'),
                'config.bits.size': ('N', 'bits')}
-        tr = RegionTr(env, {})
+        tr = RegionTr(env, {}, whole=True)
         d = 'Definition src_cfg_check (any_cfg : bool) (kind : exh_kind) : bool :=\n  %s.\n' % tr.stmts(f['body']['stmts'], lambda: 'true')
         g = find_fn(be['items'], 'check_explicit_exhaustive')
         st = g['body']['stmts']
